@@ -11,6 +11,14 @@ VARIABLES l,
           d    \* the drain of the current (Drain) line has begun
 tvars == <<vars, l, d>>
 
+\* the profile of a recorded behaviour: its configuration, and no restriction on what the environment may do
+AllPost == {"json", "badjson", "sse", "202", "badct", "rpcerr", "rpc404", "404", "http", "401", "5xx", "neterr"}
+AllGet  == {"sse", "405", "404", "4xx", "500", "200plain", "503sse", "neterr"}
+TraceProfile(psa, poauth, pdel) ==
+  [name |-> "trace", nc |-> NC, sa |-> psa, oauth |-> poauth, del |-> pdel, post |-> AllPost, get |-> AllGet,
+   inith |-> {"", "A", "B"}, hset |-> {"", "A", "B"}, notify |-> 1, saev |-> 99, auth |-> 99, close |-> 99, cancel |-> TRUE]
+TraceProfiles == {TraceProfile(TRUE, FALSE, "ok")}
+
 TagOfK(a) == IF a = "1" THEN "c1" ELSE IF a = "2" THEN "c2" ELSE "c3"
 KOf(a) == IF a = "1" THEN 1 ELSE IF a = "2" THEN 2 ELSE 3
 SentIdx(e) == {i \in DOMAIN e.reqs : e.reqs[i].st # "still"}
@@ -67,12 +75,11 @@ DrainEnv ==
   \/ closeIss = 0 /\ Close
   \/ DelTimeout
 
-SDK == \/ ~Locked /\ (TClose \/ Done)
-       \/ ~Locked /\ ~Urgent /\ (ConnInit \/ Reader \/ ReaderFail \/ ReaderEOF)
+SDK == SDKNext
 
 PrevOK == IF l = 1 THEN TRUE ELSE IF TraceLog[l - 1].ev = "reset" THEN TRUE ELSE Match(TraceLog[l - 1])
 ResetTo(e) ==
-  /\ SA' = e.sa /\ OAuth' = e.oauth /\ DelCls' = e.del
+  /\ P' = TraceProfile(e.sa, e.oauth, e.del)
   /\ conn' = "none" /\ cph' = "-" /\ connres' = "" /\ cancelled' = FALSE /\ sid' = "" /\ pv' = FALSE /\ fail' = ""
   /\ rq' = [t \in Tags |-> NoReq] /\ reg' = {} /\ ret' = [t \in CallTags |-> ""] /\ stream' = [t \in CallTags |-> "none"]
   /\ inbox' = <<>> /\ nt' = "new" /\ sa' = (IF e.sa THEN "none" ELSE "off") /\ ping' = "none" /\ nsaev' = 0 /\ sanotes' = 0
